@@ -1195,6 +1195,21 @@ func TestC09InstallCMap(t *testing.T) {
 			t.Fatalf("InstallCMap(%s)\n  %s", desc, fmt.Sprintf(f, a...))
 		}
 		f := &sfnt.Font{}
+		switch rapid.IntRange(0, 3).Draw(t, "previousCmap") {
+		case 1:
+			// the font already has a full-repertoire table from an earlier install
+			f.InstallCMap(cmap.Format12{0x41: 1, 0x1F600: 2})
+			desc += " after InstallCMap(Format12{U+0041, U+1F600})"
+		case 2:
+			f.InstallCMap(cmap.Format4{0x41: 3, 0x42: 4})
+			desc += " after InstallCMap(Format4{U+0041, U+0042})"
+		case 3:
+			// a table as read from a file: more keys than InstallCMap writes
+			old := cmap.Format12{0x61: 5, 0x10000: 6}.Encode(0)
+			f.CMapTable = cmap.Table{{PlatformID: 3, EncodingID: 10}: old, {PlatformID: 0, EncodingID: 4}: old,
+				{PlatformID: 1, EncodingID: 0}: cmap.Format4{0x41: 7}.Encode(0), {PlatformID: 0, EncodingID: 3}: cmap.Format4{0x41: 7}.Encode(0)}
+			desc += " on a font that has (0,3), (0,4), (1,0), (3,10) subtables"
+		}
 		if pn := guard.Try(func() { f.InstallCMap(sub) }); pn != nil {
 			fail("%s", pn)
 		}
